@@ -25,6 +25,9 @@ class PyMod:
                 self.parents[c] = n
         self.defs = {}      # qualname -> node (FunctionDef / ClassDef), nested included
         self._collect(self.tree, '')
+        # local names are relabelled with those of the reference tree, by binding (see sa/alpha.py)
+        from .. import alpha
+        alpha.normalise_py(relname, self.defs)
 
     def _collect(self, node, prefix):
         for c in ast.iter_child_nodes(node):
